@@ -487,6 +487,27 @@ def oracle_c09(cid, impl, m):
     is the known finding only if the implementation's tree is the model's tree), complete
     when no depth cut happened, equal to the check engine's answers when no cut happened
     and the configuration has no rewrites, and the transports return the engine's tree."""
+    # structural clauses judged on the implementation's own tree: height within the
+    # effective depth, no subject set expanded (given children) twice
+    t = impl.get("tree")
+    if t and t not in ("nil", "diverged") and m.get("eff"):
+        depth, maxd, seen, stack, i2 = 0, 0, set(), [], 0
+        name = ""
+        import re as _re
+        for tok in _re.finditer(r"U([^(),]*)\(|L([^(),]*)|\)|,", t):
+            if tok.group(0).startswith("U"):
+                depth += 1
+                maxd = max(maxd, depth)
+                if tok.group(1) in seen:
+                    return ("c09-expanded-twice", f"subject set {tok.group(1)} is expanded more than once in the tree")
+                seen.add(tok.group(1))
+            elif tok.group(0).startswith("L"):
+                maxd = max(maxd, depth + 1)
+            elif tok.group(0) == ")":
+                depth -= 1
+        if maxd > int(m["eff"]):
+            return ("c09-too-deep", f"tree height {maxd} exceeds the effective depth {m['eff']}")
+
     if "tree" not in m or "reach" not in m or "tree" not in impl or "leaves" not in impl:
         return None
     if impl.get("transports_agree", "1") != "1":
